@@ -72,34 +72,56 @@ Theorem C07_sensor_pos_kernel_eq_model :
 Proof. exact @sensor_pos_kernel_eq_model. Qed.
 Print Assumptions C07_sensor_pos_kernel_eq_model.
 
-(* the limit kernels: a row is selected by position in the limit block, efc_id = objid and
-   efc_type in (LIMIT_JOINT, LIMIT_TENDON); the value goes through the same cutoff function *)
-Theorem C07_limit_pos_kernel_spec :
+(* the limit kernels: a task writes nothing, or the row's value through the same cutoff function at the
+   sensor's address; and it writes only for a row inside the limit block with efc_id = objid and
+   efc_type in (LIMIT_JOINT, LIMIT_TENDON).  (These forms also hold for kernels that additionally test
+   the sensor type, i.e. they survive the repair of the finding below.) *)
+Theorem C07_limit_pos_kernel_shape :
   forall (S : Type) (H : Scalar S) w efcid lid sensor_type sensor_datatype sensor_objid sensor_adr sensor_cutoff sensor_limit_adr ne_in nf_in nl_in efc_type_in efc_id_in efc_pos_in efc_margin_in sensordata_out orc,
-    k__limit_pos w efcid lid sensor_type sensor_datatype sensor_objid sensor_adr sensor_cutoff sensor_limit_adr ne_in nf_in nl_in efc_type_in efc_id_in efc_pos_in efc_margin_in sensordata_out orc
-    = if limit_row_selected w efcid lid sensor_objid sensor_limit_adr ne_in nf_in nl_in efc_type_in efc_id_in
-      then limit_write w lid sensor_type sensor_datatype sensor_adr sensor_cutoff sensor_limit_adr (ssub (efc_pos_in w efcid) (efc_margin_in w efcid))
-      else [].
-Proof. exact @limit_pos_kernel_spec. Qed.
-Print Assumptions C07_limit_pos_kernel_spec.
-Theorem C07_limit_vel_kernel_spec :
+    let ws := k__limit_pos w efcid lid sensor_type sensor_datatype sensor_objid sensor_adr sensor_cutoff sensor_limit_adr ne_in nf_in nl_in efc_type_in efc_id_in efc_pos_in efc_margin_in sensordata_out orc in
+    ws = [] \/ ws = limit_write w lid sensor_type sensor_datatype sensor_adr sensor_cutoff sensor_limit_adr (ssub (efc_pos_in w efcid) (efc_margin_in w efcid)).
+Proof. exact @limit_pos_kernel_shape. Qed.
+Print Assumptions C07_limit_pos_kernel_shape.
+Theorem C07_limit_pos_writes_only_selected_row :
+  forall (S : Type) (H : Scalar S) w efcid lid sensor_type sensor_datatype sensor_objid sensor_adr sensor_cutoff sensor_limit_adr ne_in nf_in nl_in efc_type_in efc_id_in efc_pos_in efc_margin_in sensordata_out orc,
+    k__limit_pos w efcid lid sensor_type sensor_datatype sensor_objid sensor_adr sensor_cutoff sensor_limit_adr ne_in nf_in nl_in efc_type_in efc_id_in efc_pos_in efc_margin_in sensordata_out orc <> [] -> limit_row_selected w efcid lid sensor_objid sensor_limit_adr ne_in nf_in nl_in efc_type_in efc_id_in = true.
+Proof. exact @limit_pos_writes_only_selected_row. Qed.
+Print Assumptions C07_limit_pos_writes_only_selected_row.
+Theorem C07_limit_vel_kernel_shape :
   forall (S : Type) (H : Scalar S) w efcid lid sensor_type sensor_datatype sensor_objid sensor_adr sensor_cutoff sensor_limit_adr ne_in nf_in nl_in efc_type_in efc_id_in efc_vel_in sensordata_out orc,
-    k__limit_vel w efcid lid sensor_type sensor_datatype sensor_objid sensor_adr sensor_cutoff sensor_limit_adr ne_in nf_in nl_in efc_type_in efc_id_in efc_vel_in sensordata_out orc
-    = if limit_row_selected w efcid lid sensor_objid sensor_limit_adr ne_in nf_in nl_in efc_type_in efc_id_in
-      then limit_write w lid sensor_type sensor_datatype sensor_adr sensor_cutoff sensor_limit_adr (efc_vel_in w efcid)
-      else [].
-Proof. exact @limit_vel_kernel_spec. Qed.
-Print Assumptions C07_limit_vel_kernel_spec.
-Theorem C07_limit_frc_kernel_spec :
+    let ws := k__limit_vel w efcid lid sensor_type sensor_datatype sensor_objid sensor_adr sensor_cutoff sensor_limit_adr ne_in nf_in nl_in efc_type_in efc_id_in efc_vel_in sensordata_out orc in
+    ws = [] \/ ws = limit_write w lid sensor_type sensor_datatype sensor_adr sensor_cutoff sensor_limit_adr (efc_vel_in w efcid).
+Proof. exact @limit_vel_kernel_shape. Qed.
+Print Assumptions C07_limit_vel_kernel_shape.
+Theorem C07_limit_vel_writes_only_selected_row :
+  forall (S : Type) (H : Scalar S) w efcid lid sensor_type sensor_datatype sensor_objid sensor_adr sensor_cutoff sensor_limit_adr ne_in nf_in nl_in efc_type_in efc_id_in efc_vel_in sensordata_out orc,
+    k__limit_vel w efcid lid sensor_type sensor_datatype sensor_objid sensor_adr sensor_cutoff sensor_limit_adr ne_in nf_in nl_in efc_type_in efc_id_in efc_vel_in sensordata_out orc <> [] -> limit_row_selected w efcid lid sensor_objid sensor_limit_adr ne_in nf_in nl_in efc_type_in efc_id_in = true.
+Proof. exact @limit_vel_writes_only_selected_row. Qed.
+Print Assumptions C07_limit_vel_writes_only_selected_row.
+Theorem C07_limit_frc_kernel_shape :
   forall (S : Type) (H : Scalar S) w efcid lid sensor_type sensor_datatype sensor_objid sensor_adr sensor_cutoff sensor_limit_adr ne_in nf_in nl_in efc_type_in efc_id_in efc_force_in sensordata_out orc,
-    k__limit_frc w efcid lid sensor_type sensor_datatype sensor_objid sensor_adr sensor_cutoff sensor_limit_adr ne_in nf_in nl_in efc_type_in efc_id_in efc_force_in sensordata_out orc
-    = if limit_row_selected w efcid lid sensor_objid sensor_limit_adr ne_in nf_in nl_in efc_type_in efc_id_in
-      then limit_write w lid sensor_type sensor_datatype sensor_adr sensor_cutoff sensor_limit_adr (efc_force_in w efcid)
-      else [].
-Proof. exact @limit_frc_kernel_spec. Qed.
-Print Assumptions C07_limit_frc_kernel_spec.
+    let ws := k__limit_frc w efcid lid sensor_type sensor_datatype sensor_objid sensor_adr sensor_cutoff sensor_limit_adr ne_in nf_in nl_in efc_type_in efc_id_in efc_force_in sensordata_out orc in
+    ws = [] \/ ws = limit_write w lid sensor_type sensor_datatype sensor_adr sensor_cutoff sensor_limit_adr (efc_force_in w efcid).
+Proof. exact @limit_frc_kernel_shape. Qed.
+Print Assumptions C07_limit_frc_kernel_shape.
+Theorem C07_limit_frc_writes_only_selected_row :
+  forall (S : Type) (H : Scalar S) w efcid lid sensor_type sensor_datatype sensor_objid sensor_adr sensor_cutoff sensor_limit_adr ne_in nf_in nl_in efc_type_in efc_id_in efc_force_in sensordata_out orc,
+    k__limit_frc w efcid lid sensor_type sensor_datatype sensor_objid sensor_adr sensor_cutoff sensor_limit_adr ne_in nf_in nl_in efc_type_in efc_id_in efc_force_in sensordata_out orc <> [] -> limit_row_selected w efcid lid sensor_objid sensor_limit_adr ne_in nf_in nl_in efc_type_in efc_id_in = true.
+Proof. exact @limit_frc_writes_only_selected_row. Qed.
+Print Assumptions C07_limit_frc_writes_only_selected_row.
 
-(* REFUTED: that row selection is not MuJoCo's.  A JOINTLIMITPOS sensor (type 20) of joint 0 picks up
+(* ---- BEGIN: holds only while the row selection ignores the sensor type (finding
+        C07:LIMITSENSOR:joint-tendon-id-collision); delete together with the block of the same name in
+        Proof/Sensor.v when /repo is fixed ---- *)
+(* every selected row is written, whatever the sensor type ... *)
+Theorem C07_limit_pos_writes_every_selected_row :
+  forall (S : Type) (H : Scalar S) w efcid lid sensor_type sensor_datatype sensor_objid sensor_adr sensor_cutoff sensor_limit_adr ne_in nf_in nl_in efc_type_in efc_id_in efc_pos_in efc_margin_in sensordata_out orc,
+    limit_row_selected w efcid lid sensor_objid sensor_limit_adr ne_in nf_in nl_in efc_type_in efc_id_in = true ->
+    k__limit_pos w efcid lid sensor_type sensor_datatype sensor_objid sensor_adr sensor_cutoff sensor_limit_adr ne_in nf_in nl_in efc_type_in efc_id_in efc_pos_in efc_margin_in sensordata_out orc = limit_write w lid sensor_type sensor_datatype sensor_adr sensor_cutoff sensor_limit_adr (ssub (efc_pos_in w efcid) (efc_margin_in w efcid)).
+Proof. exact @limit_pos_writes_every_selected_row. Qed.
+Print Assumptions C07_limit_pos_writes_every_selected_row.
+
+(* ... REFUTED: that row selection is not MuJoCo's.  A JOINTLIMITPOS sensor (type 20) of joint 0 picks up
    the limit row of TENDON 0 (efc_type 4, efc_id 0): the kernel never looks at the sensor type.
    Replayed on the real code by bin/props/C07.py (finding C07:JOINTLIMITPOS:tendon-limit-row-id-collision).
    DELETE this theorem (and limit_sensor_matches_mujoco_refuted in Proof/Sensor.v) once /repo is fixed. *)
@@ -112,6 +134,7 @@ Theorem C07_limit_sensor_matches_mujoco_refuted :
       (fun _ _ => s0) (fun _ => 0) <> [].
 Proof. exact @limit_sensor_matches_mujoco_refuted. Qed.
 Print Assumptions C07_limit_sensor_matches_mujoco_refuted.
+(* ---- END ---- *)
 
 Theorem C07_tendon_actuator_force_cutoff_spec :
   forall (S : Type) (H : Scalar S) w k sensor_type sensor_datatype sensor_adr sensor_cutoff sensor_tendonactfrc_adr sensordata_in sensordata_out orc,
